@@ -254,6 +254,82 @@ def policy_network_keys(I, rep, U):
                 where=f.where(apply_node), construct='running_statistics.normalize with nested mean / std; obs keys state, proprio')
 
 
+def value_identity(rep, U):
+  """R20.7: a distribution object stands for ITS configuration.  Python's default identity equality guarantees that wherever
+  objects are looked up by == / hash (static jit arguments, caches, dict keys) one object is never served the trace / entry of
+  another.  If the classes define value equality, every configured attribute (each `self.x = ...` of every class of the
+  hierarchy) must take part in it -- otherwise two differently configured distributions are interchangeable for jit, and the
+  scale floor / variance scale of the FIRST one is silently used for the second."""
+  import ast
+  D = 'brax.training.distribution'
+  m = U.mod(D)
+  f0 = U.func(D + '.NormalTanhDistribution.__init__')
+  classes = m.classes
+  def bases(c):
+    out = []
+    for b in classes[c].bases:
+      n = b.id if isinstance(b, ast.Name) else b.attr if isinstance(b, ast.Attribute) else None
+      if n in classes:
+        out += [n] + bases(n)
+    return out
+  def methods(c):
+    return {n.name: n for n in classes[c].body if isinstance(n, ast.FunctionDef)}
+  def mro_method(c, name):
+    for k in [c] + bases(c):
+      if name in methods(k):
+        return k, methods(k)[name]
+    return None, None
+  def reads(c, fnode, seen):
+    """self attributes read by a method, through the self.methods it calls."""
+    out = set()
+    for n in ast.walk(fnode):
+      if isinstance(n, ast.Attribute) and isinstance(n.value, ast.Call) and isinstance(n.value.func, ast.Name) and n.value.func.id == 'super':
+        for k in bases(c):
+          if n.attr in methods(k) and (k, n.attr) not in seen:
+            seen.add((k, n.attr))
+            out |= reads(c, methods(k)[n.attr], seen)
+      if isinstance(n, ast.Attribute) and isinstance(n.value, ast.Name) and n.value.id in ('self', 'other'):
+        k, meth = mro_method(c, n.attr)
+        if meth is not None and (k, n.attr) not in seen:
+          seen.add((k, n.attr))
+          out |= reads(c, meth, seen)
+        elif meth is None:
+          out.add(n.attr)
+      if isinstance(n, ast.Call) and isinstance(n.func, ast.Name) and n.func.id == 'vars' or (
+          isinstance(n, ast.Attribute) and n.attr == '__dict__'):
+        out.add('*')
+    return out
+  nchecked = 0
+  for c in sorted(classes):
+    if 'ParametricDistribution' not in [c] + bases(c):
+      continue
+    stored = set()
+    for k in [c] + bases(c):
+      init = methods(k).get('__init__')
+      if init is not None:
+        stored |= {t.attr for n in ast.walk(init) if isinstance(n, (ast.Assign, ast.AnnAssign, ast.AugAssign))
+                   for t in (n.targets if isinstance(n, ast.Assign) else [n.target])
+                   if isinstance(t, ast.Attribute) and isinstance(t.value, ast.Name) and t.value.id == 'self'}
+    for special in ('__eq__',):      # a coarser __hash__ only collides; equality decides which entry is served
+      k, meth = mro_method(c, special)
+      nchecked += 1
+      if meth is None:
+        rep.ok('R20.7', '%s.%s is identity' % (c, special), where=f0.where(), construct='no %s in the hierarchy of %s' % (special, c))
+        continue
+      if isinstance(meth, ast.FunctionDef) is False:
+        continue
+      used = reads(c, meth, set())
+      missing = sorted(stored - used) if '*' not in used else []
+      rep.check(not missing, 'R20.7', '%s.%s covers every configured attribute' % (c, special),
+                'value %s of %s ignores the configured attribute(s) %s: two differently configured distributions are equal / '
+                'hash alike, so a jitted function that takes the distribution as a static argument (or any cache keyed by it) '
+                'evaluates one with the other\'s parameters' % (special, c, ', '.join(missing)),
+                where=(m.path, meth.lineno, '%s.%s.%s' % (D, k, special)), construct='stored: %s; compared: %s' % (sorted(stored), sorted(used)))
+  if nchecked < 2:
+    from braxlint.universe import AnalysisError
+    raise AnalysisError('C20 R20.7: fewer than two distribution classes found')
+
+
 class _OnlyFailures:
   """Further random-interpretation trials of an obligation already recorded: only a refutation is new information."""
 
@@ -274,6 +350,7 @@ class _OnlyFailures:
 def run(U, rep, tier):
   I = new_interp(U.repo)
   policy_network_keys(I, rep, U)
+  value_identity(rep, U)
   if tier == 'quick':
     grid = [((), 2)]
   else:
